@@ -631,7 +631,9 @@ def main(replay=None):
     # ---------------- (k) non-conformable operands of the other container pairs (guards implicit in the accessors) -----------------
     kdist = {}; kmis = 0
     BIN = {60: "SparseMatrix*Vector", 61: "SparseMatrix*Matrix", 62: "SparseMatrix*SymMatrix", 63: "SparseMatrix*SparseMatrix", 64: "SparseMatrix+SparseMatrix",
-           65: "Matrix*SparseMatrix", 66: "FastSparseMatrix*Vector", 67: "SparseMatrix::transpose()*Vector", 68: "SparseMatrix::setlin"}
+           65: "Matrix*SparseMatrix", 66: "FastSparseMatrix*Vector", 67: "SparseMatrix::transpose()*Vector", 68: "SparseMatrix::setlin",
+           70: "SymMatrix(const Matrix&)", 71: "Matrix(const SymMatrix&)", 72: "Vector(const Matrix&)", 73: "Matrix(const Vector&,M,N)", 74: "Matrix(const SparseMatrix&)",
+           75: "SymMatrix(const Vector&)", 76: "Vector(const SymMatrix&)"}
     def bin_spec(id_, n, c, a):
         if id_ in (60, 66): return a[0] == c
         if id_ == 67: return a[0] == n
@@ -640,17 +642,24 @@ def main(replay=None):
         if id_ == 64: return a[0] == n and a[1] == c
         if id_ == 65: return a[0] == c                  # Matrix(n,c) * Sparse(bn,bm): c == bn
         if id_ == 68: return (None if a[1] < c else True) if (a[0] < n and a[1] <= c) else False
+        if id_ == 70: return n <= c or n == 0           # the upper triangle of the first nlin columns must exist
+        if id_ in (71, 72, 74, 76): return True
+        if id_ == 73: return a[0] == n * c
+        if id_ == 75: return any(m * (m + 1) // 2 == a[0] for m in range(0, a[0] + 2))
     if rp is None or rp.get("kind") == "binop":
         kc = []
         for id_ in BIN:
-            for n in (1, 2, 3, 5):
-                for c in (1, 2, 4):
+            for n in ((1, 2, 3, 5) if id_ < 70 else (0, 1, 2, 3, 5, 64)):
+                for c in ((1, 2, 4) if id_ < 70 else (0, 1, 2, 3, 4)):
                     for d in (-2, -1, 0, 1, 2, 5):
                         if id_ in (60, 66, 62): args = [max(c + d, 0)]
                         elif id_ == 67: args = [max(n + d, 0)]
                         elif id_ in (61, 63, 65): args = [max(c + d, 0), rng.randint(1, 3)]
                         elif id_ == 64: args = [max(n + (d if rng.random() < 0.5 else 0), 0), max(c + d, 0)]
-                        else: args = [rng.choice([0, n - 1, n]), max(c + d, 0)]
+                        elif id_ == 68: args = [rng.choice([0, n - 1, n]), max(c + d, 0)]
+                        elif id_ == 73: args = [max(n * c + d, 0)]
+                        elif id_ == 75: args = [max(n * (n + 1) // 2 + d, 0)]
+                        else: args = []
                         kc.append("c18 1 %d %d %d %s" % (id_, n, c, " ".join(map(str, args))))
         kc = sorted(set(kc))
         if rp is not None: kc = rp["cases"]
@@ -671,12 +680,70 @@ def main(replay=None):
                 ck.violation(sig, "%s with receiver %dx%d (an entry stored in every column) and argument shape %s %s; required: %s. case `%s`" % (BIN[id_], n, cc, a, what, "an exception" if sp is False else "a result", c),
                              dict(kind="binop", cases=[c], impl=[o]))
 
+
+    # ---------------- (l) unknown names that sort before / between / after the existing ones ---------------------------------------
+    udist = {}; umis = 0
+    if rp is None or rp.get("kind") in ("geomref", "tool"):
+        m3 = models.nested([0.8, 0.9, 1.0], [1.0, 0.0125, 1.0], level=0, names=["cortex", "skull", "scalp"])
+        udir = os.path.join(wd, "georef"); gU, cU = models.write_model(m3, udir)
+        base = open(gU).read()
+        def around(existing):
+            ex = sorted(existing); out = set()
+            for e in ex: out |= {e[:-1], e + "x", e.upper(), e.lower(), e.capitalize(), e[0], e + " "}
+            out |= {"0", "25", "A", "zzz", "~", "Brain", chr(ord(ex[0][0]) - 1) + "a", ex[0] + "0", ex[-1] + "0"}
+            return sorted(x for x in out if x and x not in existing and not x.endswith(" "))
+        gfiles = []
+        for bad in around([x[0] for x in m3["interfaces"]]):          # a Domain refers to an interface that does not exist
+            txt = base.replace("Domain D1: -I1 +I0", "Domain D1: -%s +I0" % bad)
+            if txt == base: continue
+            pth = os.path.join(udir, "dom_%d.geom" % len(gfiles)); open(pth, "w").write(txt); gfiles.append((pth, "Domain D1 refers to interface \"%s\"" % bad))
+        for bad in around([x[0] for x in m3["meshes"]]):              # an Interface refers to a mesh that does not exist
+            txt = base.replace("Interface I1: +skull", "Interface I1: +%s" % bad)
+            if txt == base: continue
+            pth = os.path.join(udir, "itf_%d.geom" % len(gfiles)); open(pth, "w").write(txt); gfiles.append((pth, "Interface I1 refers to mesh \"%s\"" % bad))
+        if len(gfiles) < 20:
+            ck.violation("geomref-generator", "the .geom text produced by lib/models.py no longer has the expected lines: only %d variants" % len(gfiles), dict(kind="geomref"), found_input=False)
+        envu = {"C18_GEOM": gU, "C18_COND": cU, "C18_PATHS": "\x1f".join(p for p, _ in gfiles)}
+        ucs = ["c18 3 4 %d" % k for k in range(len(gfiles))]
+        rc, uo, err = core.run_harness(hb, ucs, wd, tag="gr", env=envu)
+        exe = os.path.join(bdir, "apps", "tools", "om_check_geom")
+        tenv = dict(os.environ); tenv.update(OMP_NUM_THREADS="1", OPENBLAS_NUM_THREADS="1")
+        libs = ombuild.find_libs(bdir); tenv["LD_LIBRARY_PATH"] = ":".join(sorted({os.path.dirname(x) for x in libs.values()})) + ":" + tenv.get("LD_LIBRARY_PATH", "")
+        for (pth, lab), c, o in zip(gfiles, ucs, uo):
+            udist["Geometry::load(.geom reference)"] = udist.get("Geometry::load(.geom reference)", 0) + 1
+            if o.startswith("CRASH") or o.split()[0] == "0":
+                umis += 1
+                ck.violation("geom: %s" % lab, "Geometry::load of a .geom in which %s %s; required: an exception (existing: meshes %s, interfaces %s)" % (lab, "crashed" if o.startswith("CRASH") else "succeeded", [x[0] for x in m3["meshes"]], [x[0] for x in m3["interfaces"]]),
+                             dict(kind="geomref", geom_text=open(pth).read(), impl=[o]))
+        for pth, lab in gfiles[::3]:
+            try:
+                pr = subprocess.run([exe, "-g", pth], stdout=subprocess.PIPE, stderr=subprocess.PIPE, env=tenv, timeout=120, cwd=udir); status = pr.returncode
+            except subprocess.TimeoutExpired:
+                status = "timeout"
+            udist["om_check_geom"] = udist.get("om_check_geom", 0) + 1
+            if status == 0:
+                umis += 1
+                ck.violation("om_check_geom: %s" % lab, "om_check_geom -g on a .geom in which %s exited with status 0; required: non-zero" % lab, dict(kind="tool", tool="om_check_geom", geom_text=open(pth).read(), status=status))
+        # API lookups with the same kind of names
+        pres = dict(mesh=[x[0] for x in m3["meshes"]], interface=[x[0] for x in m3["interfaces"]], domain=[x[0] for x in m3["domains"]])
+        tblu = sorted(set(around(pres["mesh"]) + around(pres["interface"]) + around(pres["domain"])))
+        envu["C18_NAMES"] = "\x1f".join(tblu)
+        lcs = ["c18 2 %d %d" % (kd, k) for kd in range(4) for k in range(len(tblu))]
+        rc, lo, err = core.run_harness(hb, lcs, wd, tag="gl", env=envu)
+        for c, o in zip(lcs, lo):
+            kd, k = int(c.split()[2]), int(c.split()[3]); cat = ["mesh", "mesh", "interface", "domain"][kd]
+            udist["lookup " + cat] = udist.get("lookup " + cat, 0) + 1
+            if tblu[k] in pres[cat]: continue
+            if o.startswith("CRASH") or o.split()[0] in ("0", "9"):
+                umis += 1
+                ck.violation("lookup %s(%r)" % (cat, tblu[k]), "Geometry::%s(\"%s\") returned an object; required: throw (present: %s)" % (cat, tblu[k], pres[cat]), dict(kind="lookup", cases=[c], impl=[o], names=tblu))
+
     res = ck.proof_result
-    ck.cov.update(evaluations=len(acases) + sum(ldist.values()) + wn + 1 + sum(sdist.values()) + sum(xdist.values()) + len(gdist) + sum(fdist.values()) + sum(ndist.values()) + sum(rdist.values()) + sum(edist.values()) + sum(kdist.values()), distinct_nontrivial=len(set(acases)) + sum(ldist.values()) + wn,
+    ck.cov.update(evaluations=len(acases) + sum(ldist.values()) + wn + 1 + sum(sdist.values()) + sum(xdist.values()) + len(gdist) + sum(fdist.values()) + sum(ndist.values()) + sum(rdist.values()) + sum(edist.values()) + sum(kdist.values()) + sum(udist.values()), distinct_nontrivial=len(set(acases)) + sum(ldist.values()) + wn,
                   rule="accessor cases: (method, nlin, ncol, arguments) with arguments aimed at the guard boundary (n-1, n, n+1, 2^31, 2^32-1, 2^32-n, 65535/65536, wrap-around ranges), shapes 0..%d, ~60%% expected to throw; lookups: every present name and 12 near-miss names on 4 lookup functions; I/O: prepared paths x entry points; write faults: every stream writer x 2 sizes x (boundary + random byte limits, /dev/full, missing directory); distinct = distinct case lines" % (7 if quick else 40),
                   samples=acases[:2] + ["c18 2 <kind> <name>", "c18 4 <kind> <fmt> <n> <k bytes>"], op_distribution=adist, expected_throws=throws,
                   accessor_mismatches=amis, lookup_io_distribution=ldist, lookup_io_mismatches=lmis,
-                  write_fault_distribution=wdist, write_fault_cases=wn, write_fault_mismatches=wmis, write_fault_file_size_equals_model=wexact, suffix_selection_distribution=sdist, suffix_selection_mismatches=smis, other_writers_distribution=xdist, other_writers_mismatches=xmis, singular_matrices=gdist, load_state_distribution=fdist, load_state_mismatches=fmis, named_entry_points=ndist, named_entry_mismatches=nmis, reused_geometry=rdist, reused_geometry_mismatches=rmis, exit_status=edist, exit_status_mismatches=emis, container_binary_ops=kdist, container_binary_ops_mismatches=kmis,
+                  write_fault_distribution=wdist, write_fault_cases=wn, write_fault_mismatches=wmis, write_fault_file_size_equals_model=wexact, suffix_selection_distribution=sdist, suffix_selection_mismatches=smis, other_writers_distribution=xdist, other_writers_mismatches=xmis, singular_matrices=gdist, load_state_distribution=fdist, load_state_mismatches=fmis, named_entry_points=ndist, named_entry_mismatches=nmis, reused_geometry=rdist, reused_geometry_mismatches=rmis, exit_status=edist, exit_status_mismatches=emis, container_binary_ops=kdist, container_binary_ops_mismatches=kmis, unknown_names_around_existing=udist, unknown_names_mismatches=umis,
                   big_symmatrix_witness=big, traces_validated_against_impl=len(acases) + sum(ldist.values()) + wn)
     ck.cov["trusted_base"] += ["translator translators/t_accessors.py (restricted C++ expression grammar -> Gallina with explicit 2^32 / 2^64 reduction); validated each run by evaluating the generated definitions against the real calls",
                                "outcome-class models coq/Geom/Lookups.v, coq/Maths/WriteFault.v (hand-written, tied by the sweeps)",
